@@ -1,13 +1,7 @@
 package sim
 
-func checkC04(ix *index, add addFn) {}
-func checkC06(ix *index, add addFn) {}
-func checkC07(ix *index, add addFn) {}
-func checkC11(ix *index, add addFn) {}
 func checkC13(ix *index, add addFn) {}
-func checkC15(ix *index, add addFn) {}
 func checkC16(ix *index, add addFn) {}
 func checkC17(ix *index, add addFn) {}
 func checkC18(ix *index, add addFn) {}
-func checkC19(ix *index, add addFn) {}
 func checkC20(ix *index, add addFn) {}
